@@ -37,6 +37,8 @@ CLAIMED = {
             "all noise / context values, all transforms and embedding nets (uninterpreted); context rows and draws enumerated; the statistical clause is derived, not tested", "4-C04"),
     "C18": ("proof", "contract-based deductive verification of shape and raise contracts: every cell of the (num_samples, batch_size, context rows) grid is an executed path of the real code on symbolic tensors, result shapes from real torch meta inference, documented TypeError / ValueError as raises-iff",
             "exact for all values at each grid cell; the integer grid is bounded", "4-C18"),
+    "C05": ("proof", "contract-based deductive verification: returned log-densities proved equal, as terms, to the textbook closed forms (Gaussian family), exact summation to one (Bernoulli), normaliser compared through its erf arguments; sampling code proved to use the location/scale of its own context row and one fresh draw per sample",
+            "all values for the enumerated event shapes; MADE mixture, KDE evaluator and BoxUniform not under contract (listed)", "4-C05"),
 }
 REASON_TODO = "check not built yet in this session (the design in DESIGN.md section 4 applies; will be claimed when its contracts discharge)"
 props = [json.loads(l) for l in open(os.path.join(V, "properties.jsonl"))]
